@@ -4,6 +4,7 @@ import (
 	"fmt"
 	"strings"
 
+	"github.com/iancoleman/strcase"
 	"github.com/pentops/j5/gen/j5/sourcedef/v1/sourcedef_j5pb"
 	"github.com/pentops/j5/internal/bcl/errpos"
 	"github.com/pentops/j5/internal/j5s/sourcewalk"
@@ -172,16 +173,35 @@ func oneofTypeRef(node *sourcewalk.OneofNode) *TypeRef {
 }
 
 func enumTypeRef(node *sourcewalk.EnumNode) *TypeRef {
+	// Names and numbers must match the values built by visitEnumNode.
+	prefix := node.Schema.Prefix
+	if prefix == "" {
+		prefix = strcase.ToScreamingSnake(node.Schema.Name) + "_"
+	}
 	valMap := make(map[string]int32)
-	for _, value := range node.Schema.Options {
-		valMap[node.Schema.Prefix+value.Name] = value.Number
+	valMap[prefix+"UNSPECIFIED"] = 0
+	options := node.Schema.Options
+	if len(options) > 0 && options[0].Number == 0 && strings.HasSuffix(options[0].Name, "UNSPECIFIED") {
+		name := options[0].Name
+		if !strings.HasPrefix(name, prefix) {
+			name = prefix + name
+		}
+		valMap[name] = 0
+		options = options[1:]
+	}
+	for idx, value := range options {
+		name := value.Name
+		if !strings.HasPrefix(name, prefix) {
+			name = prefix + name
+		}
+		valMap[name] = int32(idx + 1)
 	}
 	return &TypeRef{
 		Name:     node.NameInPackage(),
 		Position: node.Source.GetPos(),
 
 		EnumRef: &EnumRef{
-			Prefix: node.Schema.Prefix,
+			Prefix: prefix,
 			ValMap: valMap,
 		},
 	}
